@@ -4,10 +4,10 @@
 patch=$1; shift
 scratch=$(mktemp -d /dev/shm/ref.XXXX)
 trap 'rm -rf $scratch' EXIT
-rsync -a --exclude .git /repo/ $scratch/
+rsync -a --exclude .git ${REPO_SRC:-/repo}/ $scratch/
 (cd $scratch && git init -q . 2>/dev/null; git -C $scratch apply --whitespace=nowarn $patch 2>/dev/null || patch -s -p1 --fuzz=3 < $patch) || { echo "PATCH-FAILED $patch"; exit 3; }
 for prop in "$@"; do
-  out=$(/verif/bin/govc -repo $scratch -baseline /repo -prop "$prop" -replays $scratch/replays -known /nonexistent 2>&1)
+  out=$(${GOVC_BIN:-/verif/bin/govc} -specs ${GOVC_SPECS:-/verif/specs} -repo $scratch -baseline /repo -prop "$prop" -replays $scratch/replays -known /nonexistent 2>&1)
   rc=$?
   if [ $rc -eq 0 ]; then echo "QUIET $patch prop=$prop";
   else echo "ALARM($rc) $patch prop=$prop: $(echo "$out" | grep '^VIOLATION\|ENGINE-ERROR' | sed 's/.*obligation=//' | tr '\n' ' ' | cut -c1-600)"; fi
